@@ -6,6 +6,7 @@ import (
 	"encoding/binary"
 	"encoding/json"
 	"fmt"
+	"github.com/foxboron/go-uefi/efivar"
 	"github.com/foxboron/go-uefi/pkcs7"
 	"sync"
 	"time"
@@ -174,6 +175,9 @@ func genVgOp(r *R) vgOp {
 	switch r.Intn(6) {
 	case 3:
 		op.Val = ValSpec{Kind: "randdb", Tag: r.Intn(1 << 24)}
+		if r.Chance(1, 4) {
+			op.Val = ValSpec{Kind: "stalesizedb", N: r.Range(1, 4), Tag: r.Intn(250)}
+		}
 	case 0:
 		op.Val = ValSpec{Kind: "hashdb", N: 0}
 	case 1:
@@ -462,10 +466,27 @@ func vgProduce(op vgOp, plane *Plane) *vgProduct {
 	}
 	p.at = time.Now().UTC()
 	p.zname, p.zoff = time.Now().Zone()
+	var stale efivar.Marshallable
+	if op.Val.Kind == "stalesizedb" {
+		w := op.Val
+		w.Kind = "hashdb"
+		if db, err := signature.ReadSignatureDatabase(bytes.NewReader(w.Bytes())); err == nil && len(db) > 0 {
+			db[0].ListSize += 4
+			stale = &db
+		}
+	}
 	func() {
 		defer func() { p.pv = recover() }()
 		switch op.Op {
 		case "SignEFIVariable":
+			if stale != nil {
+				_, mm, e2 := signature.SignEFIVariable(v, stale, signer, pk.Cert)
+				p.err = e2
+				if mm != nil && e2 == nil {
+					p.keep, p.out = mm, mm.Bytes()
+				}
+				return
+			}
 			mine := &mutVal{b: append([]byte(nil), payload...), odd: op.Key%3 == 1 && op.Reuse}
 			_, mm, e2 := signature.SignEFIVariable(v, mine, signer, pk.Cert)
 			p.err = e2
@@ -494,7 +515,11 @@ func vgProduce(op vgOp, plane *Plane) *vgProduct {
 			wr := fswrapper.NewMemoryWrapper()
 			wr.SetFS(sfs)
 			api := efivarfs.Open(&efivarfs.EFIFS{FSWrapper: wr})
-			p.err = api.WriteSignedUpdate(v, libVal(payload, op.Reuse), signer, pk.Cert)
+			var m efivar.Marshallable = libVal(payload, op.Reuse)
+			if stale != nil {
+				m = stale
+			}
+			p.err = api.WriteSignedUpdate(v, m, signer, pk.Cert)
 			for _, ev := range sfs.Events {
 				if ev.Call == cWrite && len(ev.Buf) >= 4 {
 					p.out = ev.Buf[4:]
